@@ -4,6 +4,7 @@
 package childqueues_updater
 
 //@ import rupd "github.com/NVIDIA/KAI-scheduler/pkg/queuecontroller/controllers/resource_updater"
+//@ import v2alpha2 "github.com/NVIDIA/KAI-scheduler/pkg/apis/scheduling/v2alpha2"
 
 // Property C20 ("a Queue's reported values ... child queues at every level of the hierarchy"; "reconciling again without
 // change leaves every object unchanged"): the reported child-queue names are exactly the names of the listed queues
@@ -14,6 +15,20 @@ package childqueues_updater
 // for EVERY name (stands for `forall s string ::` around the counts; range sums under a binder get no unfolding).
 //@ declare anyName() string
 //@ define isChild(c v2.Queue, parent string) bool = c.Spec.ParentQueue == parent
+// Copy of the ASSUMED client.Client.List contract of the resource_updater package (same text, names qualified): an
+// external interface contract is looked up in the unit's OWN contract file first; other packages (pod-grouper plugins)
+// carry different List contracts for their own list types.
+//@ func sigs.k8s.io/controller-runtime/pkg/client.Client.List
+//@   props C20
+//@   note ASSUMED (external interface, no body): same contract as in resource_updater's file - decodes into the list object only, Items is new memory, may fail; which objects are selected is not modelled
+//@   requires [knownListType] list != nil && (typeis(list, "*v2.QueueList") || typeis(list, "*v2alpha2.PodGroupList"))
+//@   modifies fields(rupd.qlOf(list)), fields(rupd.pglOf(list)), rupd.listedQueues(), rupd.listedPodGroups()
+//@   ensures typeis(list, "*v2.QueueList") ==> rupd.listedQueues() == rupd.qlOf(list) && rupd.listedPodGroups() == old(rupd.listedPodGroups())
+//@   ensures typeis(list, "*v2alpha2.PodGroupList") ==> rupd.listedPodGroups() == rupd.pglOf(list) && rupd.listedQueues() == old(rupd.listedQueues())
+//@   ensures result == nil && typeis(list, "*v2.QueueList") ==> fresh(rupd.qlOf(list).Items)
+//@   ensures result == nil && typeis(list, "*v2alpha2.PodGroupList") ==> fresh(rupd.pglOf(list).Items)
+//@ end
+
 //@ define nMatching(n int, parent string) int = count i in range(0, n) :: isChild(rupd.listedQueues().Items[i], parent)
 //@ define nMatchingNamed(n int, parent string, s string) int = count i in range(0, n) :: isChild(rupd.listedQueues().Items[i], parent) && rupd.listedQueues().Items[i].Name == s
 //@ define nNamed(names []string, n int, s string) int = count k in range(0, n) :: names[k] == s
